@@ -1,4 +1,5 @@
 import Operon.Lemmas.C04
+import Operon.Lemmas.C04Race
 import Operon.Gen.MetabolismConsts
 import Operon.Gen.AtpTranslated
 /-!
@@ -280,6 +281,42 @@ theorem c04_no_raise_run (sys : Sys) (ops : List Op) : ∀ r ∈ (run cls noObs 
   obtain ⟨m, j, n, st, -, h⟩ := c04_raises_only_what_observer_raised_run cls noObs k sys ops r hr e he
   simp [noObs, Obs.silent] at h
 
+/-! ### overlapping calls
+
+`race cls o1 o2 sys n a b` (Model/Atp.lean): call `a` is preempted just before its `n`-th lock acquisition and call `b` runs to
+completion there; on the lock structure of the source (one region per call, two for `transfer_to`: E3's facts, C05) that is
+`b; a`, or `withdraw; b; deposit`, or `a; b`.  The harness drives the real code through exactly these overlaps (`race`
+protocol lines) and compares; interleavings at line granularity are C05's. -/
+
+/-- Every balance, the debt and every capacity stay `>= 0` when two calls overlap - also while the energy of a transfer is
+    in flight between its halves. -/
+theorem c04_overlapping_calls_keep_balances_nonneg (o1 o2 : Nat → Obs) (sys : Sys) (n : Nat) (a b : Op) (wf : Sys.WF sys) :
+    Sys.WF (race cls o1 o2 sys n a b).1 :=
+  race_wf cls o1 o2 sys n a b wf
+
+/-- Overlapping calls create nothing, and each spend that reports success is paid for: without regeneration among the
+    two calls, what the colony holds afterwards plus the cost of the spends that reported success is at most what it held. -/
+theorem c04_overlapping_calls_create_nothing (o1 o2 : Nat → Obs) (sys : Sys) (n : Nat) (a b : Op) (wf : Sys.WF sys)
+    (ha : a.inflow = false) (hb : b.inflow = false) :
+    sumOf Store.worth (race cls o1 o2 sys n a b).1 + paid a (race cls o1 o2 sys n a b).2.1
+      + paid b (race cls o1 o2 sys n a b).2.2 ≤ sumOf Store.worth sys :=
+  race_pot pot_worth cls o1 o2 sys n a b wf ha hb
+
+/-- … and two overlapping spends cannot both be paid out of what covers only one: the costs of the calls that reported
+    success are bounded by what the colony could pay (balances + unused credit). -/
+theorem c04_overlapping_spends_bounded (o1 o2 : Nat → Obs) (sys : Sys) (n : Nat) (a b : Op) (wf : Sys.WF sys)
+    (ha : a.inflow = false) (hb : b.inflow = false) :
+    paid a (race cls o1 o2 sys n a b).2.1 + paid b (race cls o1 o2 sys n a b).2.2 ≤ sumOf Store.room sys := by
+  have h1 := race_pot pot_room cls o1 o2 sys n a b wf ha hb
+  have h2 := sumOf_nonneg Store.room room_nonneg _ (race_wf cls o1 o2 sys n a b wf)
+  omega
+
+/-- Neither of two overlapping calls raises (observers that never raise). -/
+theorem c04_overlapping_calls_do_not_raise (o1 o2 : Nat → Obs) (sys : Sys) (n : Nat) (a b : Op)
+    (h1 : ∀ j st, o1 j st = none) (h2 : ∀ j st, o2 j st = none) (e : Exc) :
+    (race cls o1 o2 sys n a b).2.1 ≠ .raised e ∧ (race cls o1 o2 sys n a b).2.2 ≠ .raised e :=
+  race_no_raise cls o1 o2 sys n a b h1 h2 e
+
 /-! ### the model IS the source: agreement with the translation of the current Python code
 
 `Operon.Gen.AtpT.*` are produced on every run by `harness/vf/extract/py2lean_metabolism.py` from the Python AST
@@ -488,5 +525,13 @@ example : retBool (consumeO cS (fun _ => some 1) (Store.fresh 5 0 0 0 1 10) 4 .a
 example : (step cS (fun _ => fun st => if st = .normal then some 3 else none)
       [Store.fresh 5 0 0 0 1 10, { Store.fresh 4 0 0 0 1 10 with atp := 0, state := .starving }]
       (.transfer 0 1 2 .atp)).2 = .raised (.observer 3) := by decide
+
+/-- overlapping calls: a transfer of the whole balance races a spend of the whole balance (store 0 holds 10 ATP, the peer
+    has room): whichever point the transfer is preempted at, exactly one of the two is paid and nothing goes below zero -/
+private def sysR : Sys := [Store.fresh 10 0 0 0 1 10, { Store.fresh 10 0 0 0 1 10 with atp := 0 }]
+example : (race cN (noObs 0) (noObs 0) sysR 1 (.transfer 0 1 10 .atp) (.consume 0 10 .atp false 10)).2 = (.bool false, .bool true) ∧
+    ((race cN (noObs 0) (noObs 0) sysR 1 (.transfer 0 1 10 .atp) (.consume 0 10 .atp false 10)).1.map Store.atp) = [0, 0] := by decide
+example : (race cN (noObs 0) (noObs 0) sysR 2 (.transfer 0 1 10 .atp) (.consume 0 10 .atp false 10)).2 = (.bool true, .bool false) ∧
+    ((race cN (noObs 0) (noObs 0) sysR 2 (.transfer 0 1 10 .atp) (.consume 0 10 .atp false 10)).1.map Store.atp) = [0, 10] := by decide
 
 end Operon.Atp
